@@ -27,7 +27,8 @@ def nontrivial(files, pl):
 
 
 def run_case(run, drv, files, pl, single, tag, kinds=KINDS):
-    case = {"files": [(rel, b.token()) for rel, b in files], "pl": pl, "single": single,
+    case = {"links": cr.links(files),
+            "files": [(rel, b.token()) for rel, b in files], "pl": pl, "single": single,
             "gen": tag}
     with sandbox("c02") as box:
         root, name = cr.materialize(box, files, single)
@@ -112,13 +113,41 @@ def scaled_sweep(run, drv, tier):
         impl.set_block(16384)
 
 
+def big_piece(run):
+    """Explicit piece length 2^25 and a file of more than one such piece."""
+    from harness.common import Blob
+    pl = 2 ** 25
+    with sandbox("c02b") as box:
+        root = os.path.join(box, "payload")
+        os.makedirs(root)
+        pat = Blob.rand(11, 1021).bytes()
+        n = 40 * 2 ** 20 + 77
+        data = (pat * (n // 1021 + 1))[:n]
+        with open(os.path.join(root, "big.bin"), "wb") as fd:
+            fd.write(data)
+        want_root, want_layer = refspec.v2_file(data, pl, cr.B)
+        for kind in KINDS:
+            case = {"big_piece": True, "pl": pl, "size": n, "creator": kind}
+            try:
+                raw = impl.create(kind, root, os.path.join(box, kind + ".torrent"), piece_length=pl)
+            except Exception as exc:
+                run.fail("impl-vs-spec", case, {"raised": repr(exc)})
+                continue
+            meta = impl.decode(raw)
+            leaf = meta[b"info"][b"file tree"][b"big.bin"][b""]
+            layers = {bytes(k): bytes(v) for k, v in meta.get(b"piece layers", {}).items()}
+            if leaf.get(b"pieces root") != want_root or layers != {want_root: want_layer}:
+                run.fail("impl-vs-spec", case, {"why": "pieces root / piece layers differ from BEP 52"})
+            run.case(["big-piece", kind], True, sample=case, classes=["big-piece"])
+
+
 def run(tier, seed, replay=None):
     run = Run("C02", tier, seed, RULE)
     drv = Driver()
 
     def still_fails(c):
         probe = Run("C02", tier, seed, RULE)
-        files = [(rel, cr.blob_from_token(t)) for rel, t in c["files"]]
+        files = cr.files_of_case(c)
         run_case(probe, Driver(), files, c["pl"], c["single"], "shrink")
         return any(f.kind == "impl-vs-spec" for f in probe.failures)
     run.shrinker = still_fails
@@ -127,7 +156,7 @@ def run(tier, seed, replay=None):
         if c.get("scaled"):
             scaled_sweep(run, drv, "quick")
         else:
-            files = [(rel, cr.blob_from_token(t)) for rel, t in c["files"]]
+            files = cr.files_of_case(c)
             run_case(run, drv, files, c["pl"], c["single"], "replay")
             settle_model(run, drv)
         return run.finish()
@@ -136,5 +165,6 @@ def run(tier, seed, replay=None):
         files, pl, single = cr.make_case(run.rng, tier)
         run_case(run, drv, files, pl, single, "random")
     settle_model(run, drv)
+    big_piece(run)
     scaled_sweep(run, drv, tier)
     return run.finish()
